@@ -142,3 +142,32 @@ m("C11", "types.py", "            state[\"local_symbol_prefix\"] + self.name,\n 
 m("C08", "metacommand_impl.py", "            try:\n                return self.fn(state, *cooked_operands)\n            except reports.RecoverableError:\n                return b\"\"", "            return self.fn(state, *cooked_operands)", None)  # already reported; scope exit still fails the run
 m("C19", "compiler.py", 'label_name = name[9:].partition(".")[2]', 'label_name = name[8:].partition(".")[2]', None)   # same name: partition after the first dot
 m("C13", "formats.py", 'struct.pack("<HH", base, len(code)) + code', 'struct.pack("<H", base) + struct.pack("<H", len(code)) + code', None)
+# ---- round 3 rules: G12 (evaluation depth), G13 (loop variants), G1 state updates, G5.memo / G5.viv, C14.flow, C15 multi-piece, C11.R3 include route
+m("C03", "compiler.py", "Deferred[int](lambda: insn.value.resolve(state), insn.target.name)", "Deferred[int](lambda: wait(insn.value.resolve(state)), insn.target.name)", "G12")
+m("C08", "compiler.py", "Deferred[int](lambda: insn.value.resolve(state), insn.target.name)", "Deferred[int](lambda: wait(insn.value.resolve(state)), insn.target.name)", "G12")
+m("C08", "bk_wav.py", "while result > 0xffff:", "while result >= 0xffff:", "G13")
+m("C13", "bk_wav.py", "while result > 0xffff:", "while result >= 0xffff:", "C13.R6")
+m("C13", "bk_wav.py", "while result > 0xffff:", "while result > 0x1ffff:", "C13.R6")
+m("C08", "context.py", "                if self.pos == -1:\n                    self.pos = len(self.code)\n", "", "G13")
+m("C08", "context.py", "            if self.code[self.pos].strip() == \"\":\n                self.pos += 1", "            if self.code[self.pos].strip() == \"\":\n                self.pos += 0", "G13")
+m("C08", "metacommands.py", "    while len(characters) % 3 != 0:\n        characters.append(0)", "    while len(characters) % 3 != 0:\n        characters.extend([0, 0, 0])", "G13")
+m("C04", "insns.py", 'stub.encode(operand_expr, {**state, "rel_address": state["emit_address"] + 2 + len(operands_encoding)})',
+  'stub.encode(operand_expr, state)\n            state["rel_address"] = 0', "G1")
+m("C18", "parser.py", "def parse(filename, text):", "import functools\n@functools.lru_cache(maxsize=None)\ndef parse(filename, text):", "G5.memo")
+m("C12", "parser.py", "def parse(filename, text):", "import functools\n@functools.lru_cache(maxsize=None)\ndef parse(filename, text):", "G5.memo")
+m("C18", "devices.py", "    if not is_device_path(path):\n        # 'mode'", "    if not DEVICES[path[1:].split()[0] if path.startswith('~') else path]:\n        # 'mode'", "G5.viv")
+m("C14", "parser.py", "    return types.QuotedString(ctx_start, ctx, quote, value)", "    return types.QuotedString(ctx_start, ctx, quote, value.casefold() if not value.isascii() else value)", "C14.flow")
+m("C15", "metacommands.py", "    while len(characters) % 3 != 0:\n        characters.append(0)\n", "        while len(characters) % 3 != 0:\n            characters.append(0)\n", "C15.rad50")
+m("C11", "compiler.py", "        self.internal_prefix_to_state[self.next_internal_symbol_prefix] = state\n        self.next_internal_symbol_prefix += 1", "        self.internal_prefix_to_state[self.next_internal_symbol_prefix] = state\n        self.next_internal_symbol_prefix += (start == 0 or link_base is not None and \"set_where\" not in link_base)", "C11.R3")
+m("C02", "deferred.py", "            else:\n                total_len += len(elem)", "            elif isinstance(elem, self.typ):\n                total_len += len(elem)", "C02.R4")
+# negatives for the new rules
+m("C08", "bk_wav.py", "while result > 0xffff:", "while result >= 0x10000:", None)
+m("C13", "bk_wav.py", "while result > 0xffff:", "while result >= 0x10000:", None)
+m("C08", "context.py", "        while self.pos < len(self.code):", "        end = len(self.code)\n        while self.pos < end:", None)
+m("C04", "insns.py", 'stub.encode(operand_expr, {**state, "rel_address": state["emit_address"] + 2 + len(operands_encoding)})',
+  'stub.encode(operand_expr, dict(state, rel_address=state["emit_address"] + 2 + len(operands_encoding)))', None)
+m("C01", "insns.py", 'opcode_inline_value, operand_encoding = stub.encode(operand_expr, {**state, "rel_address": state["emit_address"] + 2 + len(operands_encoding)})',
+  'operand_state = dict(state)\n            operand_state["rel_address"] = state["emit_address"] + 2 + len(operands_encoding)\n            opcode_inline_value, operand_encoding = stub.encode(operand_expr, operand_state)', None)
+m("C04", "insns.py", 'opcode_inline_value, operand_encoding = stub.encode(operand_expr, {**state, "rel_address": state["emit_address"] + 2 + len(operands_encoding)})',
+  'operand_state = dict(state)\n            operand_state["rel_address"] = state["emit_address"] + 2 + len(operands_encoding)\n            opcode_inline_value, operand_encoding = stub.encode(operand_expr, operand_state)', None)
+m("C03", "operators.py", "            return Deferred[self.return_type](lambda: invoke(wait(operand)))", "            return Deferred[self.return_type](lambda: invoke(wait(operand)))  # forced here", None)
